@@ -31,6 +31,13 @@ package js_printer
 //@   prop C01 C16
 //@   requires p != nil
 //@   requires p.options.LineLimit <= 281474976710656
+//@   requires quote == '"' || quote == '\'' || quote == '`'
+// C01, literal extent and charset: with the ASCII charset only ASCII bytes are emitted; the delimiter is never
+// emitted raw (it is always preceded by a backslash emitted by this function); a raw line feed is emitted only
+// inside a template literal or as a line continuation right after a backslash; a raw carriage return never.
+//@   site ascii-only: [C01] append requires p.options.ASCIIOnly && !opaque ==> each(elem < 128)
+//@   site delimiter-escaped: [C01] append requires !opaque ==> each(int32(elem) == quote ==> hasPrev && prev == '\\')
+//@   site raw-newline: [C01] append requires !opaque ==> each((elem == '\n' ==> quote == '`' || (hasPrev && prev == '\\')) && elem != '\r')
 //@   loop 0 invariant 0 <= i && i <= n && n == len(text) && len(temp) == 4
 //@   loop 0 invariant wrapLongLines ==> p.options.LineLimit > 0 && -i - p.options.LineLimit <= startLineLength && startLineLength <= p.options.LineLimit
 //@   loop 0 decreases n - i
